@@ -1,17 +1,18 @@
 from vlib import *
-import sys
+import sys, os
 sys.path.insert(0, VERIF + '/e2')
 import fvm
 
 INFO = dict(
  functions=['work_queue_init', 'work_queue_push', 'work_queue_get_work', 'mpsc_fifo_push', 'mpsc_fifo_trypop'],
- stubs=['cpu_relax() in the worker retry loop is an await point bounded by the endgame protocol (spin bound)'],
+ stubs=['E1 step (e1/C17/wq_e1.c): mpsc_fifo_trypop / mpsc_fifo_push / __sync_add_and_fetch / __sync_sub_and_fetch of work_queue.c redirected (macros, library untouched) to an abstract fifo (linked L, pending P) with an environment step before every shared access: any number of other pushers count (in_count, P += d1) and complete links (P -= d2, L += d2); trypop returns an item iff L > 0 and (P == 0 or nondeterministically)',
+        'cpu_relax() in the worker retry loop is an await point bounded by the endgame protocol (spin bound)'],
  assumptions=['x86-TSO mapping of atomics; -O1 IR of clang-14',
               'symmetry: executions in which the second thread (not the first) is told START_WORKING while racing are the mirror image '
               'of the ones explored; the sequential hand-over case is covered by the HANDOVER configuration'],
- bounds='worker thread pushes 1 item and drains; 1 or 2 further threads push 1 item each concurrently; await loop: 0 free spins '
+ bounds='E1: one get_work/push from any state with in_count == out_count + L + P (each < 2^40), any number of concurrent pushers, <= 2 (thorough 3) polls; E2: worker thread pushes 1 item and drains; 1 or 2 further threads push 1 item each concurrently; await loop: 0 free spins '
         '(then the worker waits for the pushers to finish); all interleavings under SC, small configuration also under TSO',
- outside='more items / pushers; queue destruction')
+ outside='E2: more items / pushers; E1: the mpsc fifo itself (C15), out_count accessed by a stale worker through plain accesses after the role release; queue destruction')
 
 
 def plan(tier, ctx):
@@ -19,13 +20,23 @@ def plan(tier, ctx):
     src = ['work_queue.c']
     uw = {'f_vm_thread_1.0': 3, 'f_vm_thread_2.0': 3, 'f_work_queue_get_work.0': 3}
     j = []
+    # E1: one real get_work / push from any state satisfying the counter invariant, any number of concurrent pushers.
+    # Back end: cvc5 with --solve-bv-as-int=sum (shim in tools/cvc5int): the counter sums are adder equalities that stall SAT.
+    mp = 2 if tier == 'quick' else 3
+    e1 = []
+    for h in ('h_get_work', 'h_push', 'h_init'):
+        e1 += pair('e1.wq.' + h, [VERIF + '/e1/C17/wq_e1.c'], h, unwind=mp + 2, timeout=900, defines=['MAX_POLL=%d' % mp], extra=['--cvc5', '--slice-formula'],
+                   meta={'engine': 'E1 cbmc-src (SMT back end cvc5, bit-vectors solved as integers mod 2^64)', 'bounds': 'one operation from any state with in_count == out_count + linked + pending (< 2^40 each), any number of concurrent pushers before every shared access, <= %d polls of the fifo' % mp})
+    for x in e1:
+        x.env = dict(os.environ, PATH=VERIF + '/tools/cvc5int:' + os.environ.get('PATH', ''))
+    j += e1
     j += fvm.config('C17', 'wq_1pusher', 'wq.c', 2, 3, 'sc', srcs=src, spec=S, unwindset=uw, bounds='worker + 1 pusher')
     j += fvm.config('C17', 'wq_handover', 'wq.c', 2, 3, 'sc', srcs=src, defines=['HANDOVER'], spec=S, unwindset=uw,
                     bounds='worker + 1 thread that may become the second worker after the first finished')
     j += fvm.config('C17', 'wq_1pusher', 'wq.c', 2, 3, 'tso', srcs=src, spec=S, unwindset=uw, bounds='worker + 1 pusher, x86-TSO', timeout=900)
     uwg = {'f_vm_thread_1.0': 4, 'f_vm_thread_2.0': 4, 'f_vm_thread_3.0': 4, 'f_worker.0': 4, 'f_work_queue_get_work.0': 3}
     if tier == 'thorough':
-        j += fvm.config('C17', 'wq_window_3', 'wq_window.c', 3, 4, 'sc', srcs=src, spec=S, unwindset={'f_work_queue_get_work.0': 3}, bounds='3 threads: worker, possible second worker, pusher; fixed call sequences', timeout=3600, required=False, mem_gb=24)
+        j += fvm.config('C17', 'wq_window_3', 'wq_window.c', 3, 4, 'sc', srcs=src, spec=S, unwindset={'f_work_queue_get_work.0': 3}, bounds='3 threads: worker, possible second worker, pusher; fixed call sequences (the role-release window: worker still inside get_work when the next worker starts)', timeout=3000, mem_gb=24)
         j += fvm.config('C17', 'wq_general_2', 'wq_general.c', 2, 4, 'sc', srcs=src, defines=['NT=2'], spec=S, unwindset=uwg, bounds='2 threads push one item each; either may become the worker', timeout=3600)
         j += fvm.config('C17', 'wq_general_3', 'wq_general.c', 3, 4, 'sc', srcs=src, defines=['NT=3'], spec=S, unwindset=uwg, bounds='3 threads push one item each; any may become the worker', timeout=3600, required=False, mem_gb=24)
         uw2 = dict(uw); uw2['f_vm_thread_1.0'] = 4
